@@ -110,6 +110,13 @@ func CreateIndex(config IndexConfig) (*Index, error) {
 		return nil, err
 	}
 
+	// check fields
+	for _, column := range columns {
+		if strings.HasPrefix(column.Path, "$") {
+			return nil, fmt.Errorf("invalid index field %q", column.Path)
+		}
+	}
+
 	// enforce single field ttl index
 	if config.Expiry > 0 && len(*config.Key) > 1 {
 		return nil, fmt.Errorf("invalid expiring compound index")
